@@ -94,6 +94,11 @@ def gen_tree(rng, root):
                 # anything that physically lives in an include directory is visible to every includer: its name comes from
                 # a separate pool and is globally unique, so no name is reachable both adjacent and through -i
                 name = 'lib%d.asm' % len(t.files)
+                bundled = [b for b in ('GD32VF103.asm', 'ST7735S.asm', 'FE310-G002.asm', 'ESP8266.asm') if b not in used_names]
+                if bundled and where == 'inc' and rng.random() < 0.25:
+                    # the project's own copy of a file that also ships with the assembler, in a directory given with -i: that is one of
+                    # the two places the statement says F is found in; the bundled directory (--include-definitions) is not
+                    name = rng.choice(bundled)
                 d = here if in_incdir and where == 'same' else rng.choice(t.incdirs)
                 target = os.path.join(d, name)
                 written = name
